@@ -7,6 +7,7 @@ import (
 	"context"
 	"fmt"
 	"reflect"
+	"sync"
 
 	"go.brendoncarroll.net/p2p"
 	"go.brendoncarroll.net/p2p/f/x509"
@@ -59,6 +60,7 @@ type ep[A p2p.Addr] struct {
 	peers  *[]A // address of every node in this cluster (index = node)
 	closer func() error
 	// address values seen in messages whose text does not parse back to an equal value
+	objMu       sync.Mutex // the race legs and Tier B call in from free-running goroutines
 	objProblems []string
 	objSeen     map[string]bool
 }
@@ -66,6 +68,8 @@ type ep[A p2p.Addr] struct {
 // checkObj: parse(marshal(a)) must be an address equal to a, not merely one with the same text.
 func (e *ep[A]) checkObj(a A, where string) {
 	t := text(a)
+	e.objMu.Lock()
+	defer e.objMu.Unlock()
 	if e.objSeen == nil {
 		e.objSeen = map[string]bool{}
 	}
@@ -86,6 +90,8 @@ func (e *ep[A]) ObjectProblems() []string {
 	for _, a := range e.sw.LocalAddrs() {
 		e.checkObj(a, "local address")
 	}
+	e.objMu.Lock()
+	defer e.objMu.Unlock()
 	out := e.objProblems
 	e.objProblems = nil
 	return out
